@@ -7,6 +7,7 @@ import (
 	"fmt"
 	"io"
 	"strings"
+	"time"
 
 	"github.com/cube2222/octosql/execution"
 	"github.com/cube2222/octosql/execution/nodes"
@@ -152,6 +153,7 @@ type Spec struct {
 	HasLimit bool
 	Limit    int64
 	NoRetr   bool
+	Live     bool // printer only: live = true (the default live_table mode); the final frame is observed
 }
 
 func coqOptZ(has bool, n int64) string {
@@ -210,6 +212,9 @@ func (s Spec) JSON() interface{} {
 			m["limit"] = s.Limit
 		}
 		m["no_retractions_possible"] = s.NoRetr
+		if s.Live {
+			m["live"] = true
+		}
 	}
 	return m
 }
@@ -219,6 +224,7 @@ type Obs struct {
 	Events   []lib.Event
 	Rows     [][]octosql.Value
 	IsRows   bool
+	Frames   int // printer: number of frames drawn (1 = only the final table)
 	Err      error
 	Panicked interface{}
 }
@@ -326,9 +332,15 @@ func (s Spec) RunOver(src execution.Node) (o Obs) {
 			l := s.Limit
 			limit = &l
 		}
-		rows := [][]octosql.Value{}
+		// every frame (the periodic live refreshes and the final table) asks for a new formatter: the rows of
+		// the last one are the final frame
+		var frames []*[][]octosql.Value
 		p := batch.NewOutputPrinter(src, es, ms, limit, s.NoRetr, physical.Schema{TimeField: -1},
-			func(io.Writer) batch.Format { return recFormat{rows: &rows} }, false)
+			func(io.Writer) batch.Format {
+				rows := [][]octosql.Value{}
+				frames = append(frames, &rows)
+				return recFormat{rows: &rows}
+			}, s.Live)
 		func() {
 			defer func() {
 				if r := recover(); r != nil {
@@ -337,11 +349,44 @@ func (s Spec) RunOver(src execution.Node) (o Obs) {
 			}()
 			o.Err = p.Run(execution.ExecutionContext{})
 		}()
-		o.Rows = rows
+		o.Rows = [][]octosql.Value{}
+		if len(frames) > 0 {
+			o.Rows = *frames[len(frames)-1]
+		}
+		o.Frames = len(frames)
 		return o
 	}
 	o.Events, o.Err, o.Panicked = lib.RunNode(s.BuildNode(src))
 	return o
+}
+
+// SlowSource replays a script like lib.ScriptSource but sleeps before the events whose index is in Pause,
+// so that a live printer (which redraws when more than 250 ms passed since its last frame) draws
+// intermediate frames.
+type SlowSource struct {
+	Events []lib.Event
+	Pause  map[int]time.Duration
+}
+
+func (s *SlowSource) Run(ctx execution.ExecutionContext, produce execution.ProduceFn, metaSend execution.MetaSendFn) error {
+	pctx := execution.ProduceFromExecutionContext(ctx)
+	for i, e := range s.Events {
+		if d, ok := s.Pause[i]; ok {
+			time.Sleep(d)
+		}
+		if e.IsWM {
+			if err := metaSend(pctx, execution.MetadataMessage{Type: execution.MetadataMessageTypeWatermark, Watermark: e.WM}); err != nil {
+				return err
+			}
+			continue
+		}
+		vals := make([]octosql.Value, len(e.Rec.Values))
+		copy(vals, e.Rec.Values)
+		if err := produce(pctx, execution.NewRecord(vals, e.Rec.Retraction, e.Rec.EventTime)); err != nil {
+			return err
+		}
+	}
+	return nil
 }
 
 // ---- generators ----
